@@ -27,7 +27,12 @@ def harness_failures(tr):
     return [f for f in tr["failed"] if any(c.startswith("HARNESS.") for c in f["clauses"])]
 
 
+UNPRIV_SUFFIX = "/explainedByUnprivilegedLinkWriters"
+
+
 def sig_default(evs, clauses):
+    if clauses and all(c.endswith(UNPRIV_SUFFIX) for c in clauses):
+        return "diskwriter:unprivileged-writers-of-one-inode-race-on-its-mode"
     return None
 
 
@@ -133,12 +138,15 @@ def confirm_by_replay_prefixed(run, family, module, tr, prefixes, sig, text, ext
                 conf = repro > 0
                 if group_conf is None or conf:
                     group_conf = conf
-            if witness:
+            # transfers without CAP_DAC_OVERRIDE: whether two writers of one inode meet depends on the goroutine schedule, so
+            # the recorded execution is the witness there too (family "unpriv" inside the deterministic families)
+            wit = witness or bool(evs and evs[0].get("unpriv"))
+            if wit:
                 conf = True
             # a recorded execution that violates a safety clause is itself the witness for
             # schedule-dependent families; deterministic families must reproduce
             out.append(dict(case=case, clauses=set(clauses), events=_slim(evs), family=family,
-                            confirmed=True if witness else (bool(conf) if conf is not None else bool(group_conf)),
+                            confirmed=True if wit else (bool(conf) if conf is not None else bool(group_conf)),
                             signature=s, text=text(evs, clauses) + ("" if repro is None else " [replay reproduced: %s]" % (repro > 0)) + (" detail=" + details.get(case, "")[:1500] if details.get(case) else "")))
     return out
 
